@@ -8,7 +8,7 @@
 From Coq Require Import List NArith ZArith QArith Bool.
 From Mathy Require Import Num Expr Util Rules Sem.
 From Mathy Require Import Walk Heap Plans HeapPlan.
-From MathyProofs Require Import ExprFacts RulesSoundA RulesSoundB RulesSoundC RulesSoundD VarsFacts RulesVarsA RulesVarsB RulesVarsC RulesVarsD PlansFacts HeapPlanFacts.
+From MathyProofs Require Import ExprFacts RulesSoundA RulesSoundB RulesSoundC RulesSoundD VarsFacts RulesVarsA RulesVarsB RulesVarsC RulesVarsD PlansFacts HeapFacts HeapPlanFacts HeapPlanClone.
 Import ListNotations.
 
 (* the neighbourhood of a rewrite: the node itself, or its parent for the associative rotation *)
@@ -131,6 +131,37 @@ Proof.
     + vm_compute. repeat (eexists; repeat (split; try reflexivity)).
     + vm_compute. repeat constructor; cbn; intuition discriminate.
   - eexists _, _. split; [vm_compute; reflexivity|]. split; [vm_compute; reflexivity|]. repeat split.
+Qed.
+
+(* The usual call sequence, at heap level from end to end: work = node.clone_from_root() (the heap-level clone of C13), then
+   rule.apply_to(work). For any heap holding a tree t (C13's rep) with the classes and payloads of an expression e, any node of it
+   and any applicable rule at any path of the copy: the copy is a well-formed tree of fresh objects, the rewrite leaves it
+   well-formed, the result shares no object with the tree it was cloned from, and that tree still stands with the same objects,
+   links and payloads (rep before = rep after). *)
+Theorem C07_clone_then_rewrite : forall t e h root node r p z,
+  rep h (Some root) None t -> NoDup (oaddrs h (Some root) t) -> In node (oaddrs h (Some root) t) ->
+  (forall b n, In b (oaddrs h (Some root) t) -> b <> node -> nth_error h b = Some n -> dead (h_ct n)) ->
+  shape_of t e -> can_apply e p r = true -> apply e p r = ROk z ->
+  exists h1 k copy q pl,
+    clone_from_root h node = HOk (h1, (length h + k)%nat) /\ ierase copy = e /\ wf_tree h1 copy /\ iaddr copy = length h /\
+    rule_plan e p r = Some (q, pl) /\
+    ((q = [] -> top_ok pl = true) ->
+     exists h2 T', run_plan copy q pl h1 = Some (h2, iaddr T') /\ wf_tree h2 T' /\ ierase T' = fst z /\
+       rep h2 (Some root) None t /\ (forall b, In b (iaddrs T') -> (length h <= b)%nat)).
+Proof. exact clone_then_rewrite. Qed.
+Print Assumptions C07_clone_then_rewrite.
+
+Example C07_clone_premises :
+  let t := AN (cls_bin KAdd) 1 None None false (AN cls_var 2 None (Some 120%N) false AE AE) (AN cls_const 3 (Some (NInt 2)) None false AE AE) in
+  let h := layout 0 None t in
+  rep h (Some 0%nat) None t /\ NoDup (oaddrs h (Some 0%nat) t) /\ shape_of t (Bin KAdd (Var 120%N) (Const (NInt 2))) /\
+  (forall b n, In b (oaddrs h (Some 0%nat) t) -> nth_error h b = Some n -> dead (h_ct n)).
+Proof.
+  cbv zeta. split; [|split; [|split]].
+  - vm_compute. repeat (eexists; repeat (split; try reflexivity)).
+  - vm_compute. repeat constructor; cbn; intuition discriminate.
+  - cbn [shape_of]. repeat eexists.
+  - intros b n Hb Hn. vm_compute in Hb. destruct Hb as [<-|[<-|[<-|[]]]]; vm_compute in Hn; inversion Hn; right; reflexivity.
 Qed.
 
 Example C07_example :
